@@ -2,6 +2,7 @@ package main
 
 import (
 	"bufio"
+	"path/filepath"
 	"fmt"
 	"go/token"
 	"go/types"
@@ -99,6 +100,7 @@ func loadEngine(repoGo, specDir string) (*Engine, error) {
 	e.cs = loadContracts(repoGo, specDir)
 	e.cerrors = append(e.cerrors, e.cs.Errors...)
 	e.declareGhosts()
+	e.declareAxioms()
 	e.computeEffects()
 	return e, nil
 }
@@ -316,8 +318,26 @@ func (e *Engine) wantSafety(fr *frame) bool {
 	return e.safetyMode && fr.depth == 0 && !fr.inExc
 }
 
+const maxInlineSize = 150
+
+// noInline: large callees are not inlined; their effects are over-approximated
+// by the inferred write set (they are verified on their own where relevant).
 func (e *Engine) noInline(f *ssa.Function) bool {
-	return false
+	if f.Synthetic != "" {
+		return false
+	}
+	if fc := e.contractOf(f); fc != nil && fc.Inline {
+		return false
+	}
+	n := 0
+	for _, b := range f.Blocks {
+		for _, ins := range b.Instrs {
+			if _, ok := ins.(*ssa.DebugRef); !ok {
+				n++
+			}
+		}
+	}
+	return n > maxInlineSize
 }
 
 var purePkgs = map[string]bool{"strings": true, "strconv": true, "errors": true, "path": true, "path/filepath": true,
@@ -933,4 +953,170 @@ func (e *Engine) qualifiedType(s string) (types.Type, bool) {
 		}
 	}
 	return nil, false
+}
+
+// implementingTypes: repository types (T or *T) implementing the interface,
+// excluding structs that merely embed the interface.
+func (e *Engine) implementingTypes(it types.Type) []types.Type {
+	iface, ok := it.Underlying().(*types.Interface)
+	if !ok {
+		return nil
+	}
+	var out []types.Type
+	for _, p := range e.pkgs {
+		var names []string
+		for n := range p.Members {
+			names = append(names, n)
+		}
+		sort.Strings(names)
+		for _, n := range names {
+			tn, ok := p.Members[n].(*ssa.Type)
+			if !ok {
+				continue
+			}
+			if _, isIface := tn.Type().Underlying().(*types.Interface); isIface {
+				continue
+			}
+			if st, ok := tn.Type().Underlying().(*types.Struct); ok {
+				embeds := false
+				for i := 0; i < st.NumFields(); i++ {
+					if st.Field(i).Embedded() && types.Identical(st.Field(i).Type(), it) {
+						embeds = true
+					}
+				}
+				if embeds {
+					continue
+				}
+			}
+			for _, t := range []types.Type{tn.Type(), types.NewPointer(tn.Type())} {
+				if types.Implements(t, iface) {
+					out = append(out, t)
+					break
+				}
+			}
+		}
+	}
+	return out
+}
+
+// scanObligations: "only CALLEE in F1, F2" rules.
+func (e *Engine) scanObligations(p string) []*Obligation {
+	var out []*Obligation
+	for _, r := range e.cs.Onlys {
+		if !hasProp(r.Props, p) {
+			continue
+		}
+		allowed := map[string]bool{}
+		for _, a := range r.Allowed {
+			allowed[a] = true
+			if _, ok := e.funcByKey[a]; !ok {
+				e.cerrors = append(e.cerrors, fmt.Sprintf("%s:%d: only: unknown function %s", r.File, r.Line, a))
+			}
+		}
+		var bad []string
+		sites := 0
+		for _, f := range e.allFuncs {
+			for _, b := range f.Blocks {
+				for _, ins := range b.Instrs {
+					ci, ok := ins.(ssa.CallInstruction)
+					if !ok {
+						continue
+					}
+					c := ci.Common()
+					name := ""
+					if c.IsInvoke() {
+						name = c.Method.FullName()
+					} else if g := c.StaticCallee(); g != nil {
+						name = e.extName(g)
+						if e.inRepo(g) {
+							name = e.funcKey(g)
+						}
+					}
+					// function values passed around (method values / closures) count as uses too
+					if name == "" {
+						continue
+					}
+					if name == r.Callee || (r.Pkg != "" && name == r.Pkg+"::"+r.Callee) {
+						sites++
+						if !allowed[e.funcKey(f)] {
+							bad = append(bad, fmt.Sprintf("%s at %s", e.funcKey(f), posString(e.fset, ins.Pos())))
+						}
+					}
+				}
+				// address-taken uses
+				for _, ins := range b.Instrs {
+					for _, op := range ins.Operands(nil) {
+						if g, ok := (*op).(*ssa.Function); ok {
+							if ci, isCall := ins.(ssa.CallInstruction); isCall && ci.Common().Value == g {
+								continue
+							}
+							name := e.extName(g)
+							if e.inRepo(g) {
+								name = e.funcKey(g)
+							}
+							if (name == r.Callee || (r.Pkg != "" && name == r.Pkg+"::"+r.Callee)) && !allowed[e.funcKey(f)] {
+								bad = append(bad, fmt.Sprintf("%s takes the function value at %s", e.funcKey(f), posString(e.fset, ins.Pos())))
+							}
+						}
+					}
+				}
+			}
+		}
+		ft := e.newFT(nil)
+		goal := "true"
+		text := "only " + r.Callee
+		if len(bad) > 0 {
+			goal = "false"
+		}
+		o := &Obligation{Name: "scan/" + text, Kind: "scan", Props: r.Props, Func: "scan", Pos: fmt.Sprintf("%s:%d", filepath.Base(r.File), r.Line),
+			Text: text, Goal: goal, Reach: "true", ft: ft, SrcLine: strings.Join(bad, "; ")}
+		if sites == 0 {
+			o.SrcLine = "no call sites found"
+		}
+		out = append(out, o)
+	}
+	return out
+}
+
+func (e *Engine) sourceSpan(pos token.Pos, n int) string {
+	if !pos.IsValid() {
+		return ""
+	}
+	p := e.fset.Position(pos)
+	l := e.lines(p.Filename)
+	var out []string
+	for i := p.Line - 1; i < p.Line-1+n && i < len(l); i++ {
+		out = append(out, strings.TrimSpace(l[i]))
+	}
+	return strings.Join(out, " ")
+}
+
+func (e *Engine) addrTakenWithSig(sig *types.Signature) []*ssa.Function {
+	var out []*ssa.Function
+	for f := range e.addrTaken {
+		if types.Identical(f.Signature, sig) || sameParams(f.Signature, sig) {
+			out = append(out, f)
+		}
+	}
+	sort.Slice(out, func(i, j int) bool { return out[i].String() < out[j].String() })
+	return out
+}
+
+// declareAxioms: trusted axioms from contract/spec files become global axioms.
+func (e *Engine) declareAxioms() {
+	for _, a := range e.cs.Axioms {
+		ft := &FT{e: e}
+		ft.inQuant = 1
+		env := &SpecEnv{ft: ft, vars: map[string]SVal{}, cur: &State{heaps: map[string]string{}}}
+		env.old = env.cur
+		if a.Pkg != "" {
+			env.pkg = e.tpkgs[a.Pkg]
+		}
+		t, err := env.evalBool(a.E)
+		if err != nil {
+			e.cerrors = append(e.cerrors, fmt.Sprintf("%s: axiom %s: %v", a.File, a.Text, err))
+			continue
+		}
+		e.u.axiom(t)
+	}
 }
